@@ -18,18 +18,23 @@ META = {
     "technique": "Coq proof (string-search resumption lemma, induction over chunk lists) + differential correspondence",
     "text": "Coq theorems over an executable model of the client's response framing (header-terminator scan with saved "
             "cursor, status line / field parsing, RFC 9112 §6.3 framing decision, Content-Length lists, chunked decoder "
-            "with extensions and trailers, cap) and of the server's request framing (as coded, with std::stoull/stoul): "
+            "with extensions and trailers, cap) and of the server's request framing (header scan, strict length "
+            "information, the same chunk scan run from the start of the body): "
             "resumed header scans equal scans from offset 0 for every reachable state; chunked decoding is exact for every "
             "chunk pattern and resumable at every cut; Content-Length framing is exact; invalid/ conflicting/ overflowing "
-            "lengths are rejected by the client; the decoders terminate. Server statements that are false (lenient lengths, "
-            "TE substring, CL+TE, trailers) are proved refuted with witnesses and recorded as known findings. Model and code "
-            "are run on the same generated streams and segmentations every run.",
+            "lengths are rejected by the client; the decoders terminate. Server (since the repairs of C15-F5b/d/e/g/h/i): "
+            "accepted length information is sound (every Content-Length field a valid number equal to the length used; "
+            "chunked iff Transfer-Encoding present, then no Content-Length and chunked final), chunked bodies with any "
+            "trailer section are framed and decoded exactly, the scan is total; the statements refuted on the code as "
+            "found are now theorems with the old witnesses rejected. Model and code "
+            "are run on the same generated streams and segmentations every run, including the body each handler receives.",
     "design_ref": "DESIGN.md §7 C15",
     "note": "Trusted: Coq kernel; extraction + OCaml driver; harness/c15_impl.cpp (replicates the 3-line receive loop "
             "around frameResponse; private members via #define private public; IORA_VERIF hook for framed requests); "
-            "Python generator/oracle. Modelled not verified: std::string::find/substr, std::from_chars, std::stoull/stoul "
-            "(modelled as documented), std::map with the case-insensitive comparator, the worker pool (requests are "
-            "observed before dispatch).",
+            "Python generator/oracle. Modelled not verified: std::string::find/substr, std::from_chars, "
+            "std::map with the case-insensitive comparator, HttpRequest::fromWireFormat's own validation (Host, request "
+            "line: a request it refuses never reaches a handler, so handler bodies are compared on valid streams only), "
+            "the worker pool.",
 }
 
 
